@@ -1,6 +1,7 @@
 import MxModel.Proofs.ExecCertRunN
 import MxModel.Proofs.ExecCertOps
 import MxModel.Proofs.ExecCertSound
+import MxModel.Proofs.ExecAlive
 /-!
 # The certificate invariant at quiescent states: every operation preserves it
 
@@ -21,12 +22,32 @@ structure CI (env : Env) (lt : Node → Node → Prop) (s : St) : Prop where
   gi : GI env lt s
   quiet : Quiet s
   certs : CInv env s
+  /-- only cells that exist have graph nodes (hence values) -/
+  alive : AliveG env s
+  /-- reference-graph edges end in held elements -/
+  rgHeld : RgHeld s
 
 theorem CI.good (h : CI env lt s) : Good env (inpOf s) s :=
-  cinv_good env s (fun m hm => (h.gi.heldNodes m hm).2) h.certs
+  cinv_good env s (fun m hm => (h.gi.heldNodes m hm).2)
+    (fun a b hab => h.alive.nodes a (h.gi.edgeNodes a b hab).1) h.certs
 
 theorem CI.empty (env : Env) (lt : Node → Node → Prop) : CI env lt {} :=
-  ⟨by constructor <;> simp, ⟨rfl, rfl, rfl⟩, by intro n v hl; simp at hl⟩
+  ⟨by constructor <;> simp, ⟨rfl, rfl, rfl⟩, by intro n v hl; simp at hl, AliveG.empty env,
+   fun e he => by simp at he⟩
+
+/-- a clearing keeps `AliveG`, also w.r.t. new definitions in which the cells that still have
+nodes exist -/
+theorem AliveG.of_clr {env env' : Env} {s s' : St} {R : List GNode} {D : RefId × Node → Prop}
+    (h : AliveG env s) (hc : Clr s R D s') (hst : s.stack = [])
+    (hal : ∀ x ∈ s'.gn, env'.alive x.cell = env.alive x.cell)
+    (hca : ∀ c, GNode.obj c ∈ s'.gn → env'.cached c = env.cached c) : AliveG env' s' :=
+  h.of_gn_sub (fun x hx => ((hc.mem_gn x).mp hx).1) hc.stack hal hca hst
+
+theorem RgHeld.of_clr {s s' : St} {R : List GNode} {D : RefId × Node → Prop} (h : RgHeld s)
+    (hc : Clr s R D s') : RgHeld s' := by
+  intro e he
+  rw [hc.lookup, if_neg (hc.rgOut e he)]
+  exact h e (hc.rgSub e he)
 
 theorem Quiet.of_clr {s s' : St} {R : List GNode} {D : RefId × Node → Prop} (q : Quiet s) (h : Clr s R D s') :
     Quiet s' :=
@@ -34,11 +55,14 @@ theorem Quiet.of_clr {s s' : St} {R : List GNode} {D : RefId × Node → Prop} (
 
 /-- **T1** -/
 theorem evalTop_ci (ho : StrictOrder lt) (hr : Ranked env lt) (hnc : NoCatchEnv env) (n : Node) {s : St}
-    (h : CI env lt s) : CI env lt (evalTop env n s).2 := by
-  unfold evalTop
+    (hn : env.alive n.1 = true) (h : CI env lt s) : CI env lt (evalTop env n s).2 := by
+  have hal := evalTop_alive n s hn h.alive
+  have hrg := evalTop_rgHeld (env := env) n s h.rgHeld
+  unfold evalTop at hal hrg ⊢
   cases hl : (if env.cached n.1 = true then lookup s.data n else none) with
   | some v => exact h
   | none =>
+    simp only [hl] at hal hrg
     simp only []
     have hnone : lookup s.data n = none := by
       by_cases hc : env.cached n.1 = true
@@ -51,9 +75,9 @@ theorem evalTop_ci (ho : StrictOrder lt) (hr : Ranked env lt) (hnc : NoCatchEnv 
        (by intro e he; rw [h.quiet.refstack] at he; cases he), h.certs⟩
     obtain ⟨hp, _⟩ := runN_cert ho hr hnc (env.maxdepth + 1) n s hm
       (by intro a ha; rw [h.quiet.stack] at ha; cases ha) hnone
-    generalize runN env (env.maxdepth + 1) n s = p at hp
+    generalize runN env (env.maxdepth + 1) n s = p at hp hal hrg
     obtain ⟨r, s1⟩ := p
-    simp only [] at hp
+    simp only [] at hp hal hrg
     have hq : Quiet s1 := by
       refine ⟨hp.presP.stack.trans h.quiet.stack, hp.idx.trans h.quiet.idx, ?_⟩
       obtain ⟨new, hnew, hlev⟩ := hp.body.refs
@@ -61,13 +85,14 @@ theorem evalTop_ci (ho : StrictOrder lt) (hr : Ranked env lt) (hnc : NoCatchEnv 
       cases new with
       | nil => rfl
       | cons e _ => have := hlev e (by simp); rw [h.quiet.stack] at this; simp at this
-    have key : ∀ s2 : St, SameG s1 s2 → SameC s1 s2 → s2.refstack = s1.refstack → CI env lt s2 := by
-      intro s2 hg hc hrs
+    have key : ∀ s2 : St, SameG s1 s2 → SameC s1 s2 → s2.refstack = s1.refstack → AliveG env s2 →
+        RgHeld s2 → CI env lt s2 := by
+      intro s2 hg hc hrs ha2 hr2
       exact ⟨GI.of_sameG hg hp.mid.gi, ⟨hg.stack.trans hq.stack, hg.idx.trans hq.idx, hrs.trans hq.refstack⟩,
-        hp.mid.certs.of_sameC hc⟩
+        hp.mid.certs.of_sameC hc, ha2, hr2⟩
     cases r with
-    | ok v => exact key _ ⟨rfl, rfl, rfl, rfl, rfl, rfl⟩ ⟨rfl, rfl, rfl, rfl⟩ rfl
-    | err e => exact key _ ⟨rfl, rfl, rfl, rfl, rfl, rfl⟩ ⟨rfl, rfl, rfl, rfl⟩ rfl
+    | ok v => exact key _ ⟨rfl, rfl, rfl, rfl, rfl, rfl⟩ ⟨rfl, rfl, rfl, rfl⟩ rfl hal hrg
+    | err e => exact key _ ⟨rfl, rfl, rfl, rfl, rfl, rfl⟩ ⟨rfl, rfl, rfl, rfl⟩ rfl hal hrg
 
 /-! ### edits -/
 
@@ -76,7 +101,9 @@ theorem setRef_ci {env env' : Env} {s : St} {r : RefId} (h : CI env lt s) (hsc :
     (hnc : NoCatchEnv env) (hed : RefEdit env env' r) : CI env' lt (s.setRef env r) := by
   obtain ⟨R, D, hc, hf, hD⟩ := clr_setRef env s h.gi.edgeOK r
   exact ⟨refEdit_gi h.gi h.quiet.stack hed hc, h.quiet.of_clr hc,
-    refEdit_cinv h.gi h.certs hsc hnc hed hc hf hD⟩
+    refEdit_cinv h.gi h.certs hsc hnc hed hc hf hD,
+    h.alive.of_clr hc h.quiet.stack (fun _ _ => by rw [hed.alive]) (fun _ _ => by rw [hed.cached]),
+    h.rgHeld.of_clr hc⟩
 
 /-- **T3** – `del space.r` of an existing reference -/
 theorem delRef_ci {env env' : Env} {s : St} {r : RefId} (h : CI env lt s) (hsc : Scoped env)
@@ -84,39 +111,74 @@ theorem delRef_ci {env env' : Env} {s : St} {r : RefId} (h : CI env lt s) (hsc :
     CI env' lt (s.delRef env r) := by
   obtain ⟨R, hc, hf⟩ := clr_delRef env s h.gi.edgeOK r
   exact ⟨refEdit_gi h.gi h.quiet.stack hed hc, h.quiet.of_clr hc,
-    refEdit_cinv h.gi h.certs hsc hnc hed hc hf (fun e he => ⟨hex, he⟩)⟩
+    refEdit_cinv h.gi h.certs hsc hnc hed hc hf (fun e he => ⟨hex, he⟩),
+    h.alive.of_clr hc h.quiet.stack (fun _ _ => by rw [hed.alive]) (fun _ _ => by rw [hed.cached]),
+    h.rgHeld.of_clr hc⟩
 
 /-- **T4** – a new formula, cache flag or `allow_none` for cells `c` -/
 theorem setFormula_ci {env env' : Env} {s : St} {c : CellId} (h : CI env lt s) (hed : CellEdit env env' c) :
     CI env' lt (s.setFormula c) := by
   obtain ⟨h1, h2⟩ := setFormula_cinv h.gi h.quiet.stack h.certs hed
-  obtain ⟨R, hc, _⟩ := clr_clearObj s (fun _ => False) h.gi.edgeOK c
-  exact ⟨h2, h.quiet.of_clr hc, h1⟩
+  obtain ⟨R, hc, hel, hobj⟩ := clr_clearObj s (fun _ => False) h.gi.edgeOK c
+  refine ⟨h2, h.quiet.of_clr hc, h1, h.alive.of_clr hc h.quiet.stack (fun _ _ => by rw [hed.alive]) ?_,
+    h.rgHeld.of_clr hc⟩
+  intro c' hc'
+  obtain ⟨h3, h4⟩ := (hc.mem_gn _).mp hc'
+  exact hed.cached c' (fun heq => h4 (heq ▸ hobj (heq ▸ h3)))
 
 theorem clearValueAt_ci {s : St} (h : CI env lt s) (n : Node) (ci : Bool) : CI env lt (s.clearValueAt n ci) := by
   obtain ⟨R, hc, _⟩ := clr_clearValueAt s (fun _ => False) h.gi.edgeOK n ci
-  exact ⟨h.gi.clearValueAt h.quiet.stack n ci, h.quiet.of_clr hc, clearValueAt_cinv h.gi h.certs n ci⟩
+  exact ⟨h.gi.clearValueAt h.quiet.stack n ci, h.quiet.of_clr hc, clearValueAt_cinv h.gi h.certs n ci,
+    h.alive.of_clr hc h.quiet.stack (fun _ _ => rfl) (fun _ _ => rfl), h.rgHeld.of_clr hc⟩
 
 theorem clearAllValues_ci {s : St} (h : CI env lt s) (c : CellId) (ci : Bool) :
     CI env lt (s.clearAllValues c ci) := by
   obtain ⟨R, hc, _⟩ := clr_clearAllValues s (fun _ => False) h.gi.edgeOK c ci
-  exact ⟨(h.gi.clearAllValues h.quiet.stack c ci).1, h.quiet.of_clr hc, clearAllValues_cinv h.gi h.certs c ci⟩
+  exact ⟨(h.gi.clearAllValues h.quiet.stack c ci).1, h.quiet.of_clr hc, clearAllValues_cinv h.gi h.certs c ci,
+    h.alive.of_clr hc h.quiet.stack (fun _ _ => rfl) (fun _ _ => rfl), h.rgHeld.of_clr hc⟩
 
 theorem clearObj_ci {s : St} (h : CI env lt s) (c : CellId) : CI env lt (s.clearObj c) := by
   obtain ⟨R, hc, _⟩ := clr_clearObj s (fun _ => False) h.gi.edgeOK c
-  exact ⟨h.gi.clearObj h.quiet.stack c, h.quiet.of_clr hc, clearObj_cinv h.gi h.certs c⟩
+  exact ⟨h.gi.clearObj h.quiet.stack c, h.quiet.of_clr hc, clearObj_cinv h.gi h.certs c,
+    h.alive.of_clr hc h.quiet.stack (fun _ _ => rfl) (fun _ _ => rfl), h.rgHeld.of_clr hc⟩
 
 /-- **T4** – assigning a value to an element of a cached cells -/
-theorem setValue_ci {s : St} (h : CI env lt s) (n : Node) (v : Val) (hc : env.cached n.1 = true) :
-    CI env lt (s.setValue env n v).1 := by
-  refine ⟨(h.gi.setValue h.quiet.stack n v hc).1, ?_, setValue_cinv h.gi h.certs n v⟩
+theorem setValue_ci {s : St} (h : CI env lt s) (n : Node) (v : Val) (hc : env.cached n.1 = true)
+    (hn : env.alive n.1 = true) : CI env lt (s.setValue env n v).1 := by
   have hq1 := (clearValueAt_ci h n true).quiet
-  unfold St.setValue
-  split
-  · exact h.quiet
-  · simp only []
-    generalize s.clearValueAt n true = s1 at hq1
-    unfold St.addNode
-    split <;> exact ⟨hq1.stack, hq1.idx, hq1.refstack⟩
+  have ha1 := (clearValueAt_ci h n true).alive
+  have hr1 := (clearValueAt_ci h n true).rgHeld
+  refine ⟨(h.gi.setValue h.quiet.stack n v hc).1, ?_, setValue_cinv h.gi h.certs n v, ?_, ?_⟩
+  · unfold St.setValue
+    split
+    · exact h.quiet
+    · simp only []
+      generalize s.clearValueAt n true = s1 at hq1
+      unfold St.addNode
+      split <;> exact ⟨hq1.stack, hq1.idx, hq1.refstack⟩
+  · unfold St.setValue
+    split
+    · exact h.alive
+    · simp only []
+      generalize s.clearValueAt n true = s1 at ha1
+      have h2 : AliveG env (({ s1 with data := insert s1.data n v } : St).addNode (.elem n)) :=
+        (ha1.of_same (s' := { s1 with data := insert s1.data n v }) rfl rfl).addNode _ (NodeOK.elem hn)
+      exact h2.of_same rfl rfl
+  · unfold St.setValue
+    split
+    · exact h.rgHeld
+    · simp only []
+      generalize s.clearValueAt n true = s1 at hr1
+      intro e he
+      have he1 : e ∈ s1.rg := by
+        have : (({ s1 with data := insert s1.data n v } : St).addNode (.elem n)).rg = s1.rg := rg_addNode _ _
+        simpa [this] using he
+      have hd : (({ s1 with data := insert s1.data n v } : St).addNode (.elem n)).data = insert s1.data n v :=
+        (sameCache_addNode _ _).data
+      show (lookup (({ s1 with data := insert s1.data n v } : St).addNode (.elem n)).data e.2).isSome = true
+      rw [hd, lookup_insert]
+      split
+      · rfl
+      · exact hr1 e he1
 
 end MxModel.Exec
